@@ -40,6 +40,7 @@ CONSTANTS
     Variant,    \* [literal -> [upper |-> .., enc |-> ..]] other spellings of literal segments
     EffectOf,   \* [operationId -> observable effect label]
     Methods, Spellings, MaxSpell,
+    DropReadOnly, \* {} = the code; see CoreReadOnly
     UiModes,    \* subset of BOOLEAN: server built with SWAGGER_UI unset (FALSE) / set (TRUE)
     HdrCross,   \* TRUE: the header classes below are crossed with the documented spelling of every template
     Stacks      \* which handler stacks are in the domain:
@@ -117,6 +118,37 @@ RECURSIVE JoinSlash(_)
 JoinSlash(ss) == IF ss = <<>> THEN "" ELSE "/" \o ss[1] \o JoinSlash(Tail(ss))
 \* the request target sent on the wire
 Target(p) == JoinSlash(RawSegs(p)) \o (IF p.q THEN "?x=1" ELSE "")
+
+(***************************************************************************)
+(* SUPPLY PATH of the write setting.  The API server never sees the        *)
+(* operator's configuration directly: a keyper flavour (keyperimpl/<f>)    *)
+(* reads its own Config (SetDefaultValues, then the operator's file),      *)
+(* NewKeyper copies fields into a kprconfig.Config for the keyper core,    *)
+(* KeyperCore.getServices hands that to kprapi.NewHTTPService, and         *)
+(* setupAPIRouter asks it GetEnableWriteOperations().                      *)
+(* Flavours that expose the API with an operator-settable read-only flag:  *)
+(* gnosis, shutterservice.  (snapshot and optimism have HTTPEnabled but no *)
+(* HTTPReadOnly field: nothing to configure, the API is read-write by      *)
+(* construction; primev hard-codes HTTPEnabled = false.)  "direct" = the   *)
+(* harness hands kprapi its own Config (no supply path).                   *)
+(* cfg = what the operator wrote for HTTPReadOnly: "unset" | "true" |      *)
+(* "false"; HTTPEnabled = true throughout (else there is no API).          *)
+(***************************************************************************)
+Flavours == {"gnosis", "shutterservice"}
+\* <flavour>.Config.SetDefaultValues: c.HTTPReadOnly = true (gnosis/config.go, shutterservice/config.go)
+DefaultReadOnly(f) == TRUE
+\* the flavour Config after defaults + operator file: what the operator configured
+ConfiguredReadOnly(f, cfg) == IF cfg = "unset" THEN DefaultReadOnly(f) ELSE cfg = "true"
+\* <flavour>.NewKeyper: `HTTPReadOnly: kpr.config.HTTPReadOnly` in the kprconfig.Config literal -- the
+\* identity for every flavour.  Named alternative (NOT the code): flavours in DropReadOnly lose the
+\* line, the core config keeps the zero value.
+CoreReadOnly(f, ro) == IF f \in DropReadOnly THEN FALSE ELSE ro
+\* kprconfig.Config.GetEnableWriteOperations
+GetEnableWriteOperations(httpEnabled, httpReadOnly) == httpEnabled /\ ~httpReadOnly
+\* the setting the gate of a server built through flavour f works with
+FlavourWrite(f, cfg) == GetEnableWriteOperations(TRUE, CoreReadOnly(f, ConfiguredReadOnly(f, cfg)))
+\* the setting the property speaks about: what the operator configured
+ConfiguredWrite(f, cfg) == ~ConfiguredReadOnly(f, cfg)
 
 (***************************************************************************)
 (* Request headers and body.  h = [accept, ctype, override, body]; "-" =   *)
